@@ -429,6 +429,15 @@ def run_grid1d(case, ctx, teneva):
     for lo in range(0, n, CHUNK):
         I = np.arange(lo, min(n, lo + CHUNK)).reshape(-1, 1)
         Iarg = I.tolist() if (n <= 100 and rng.random() < 0.3) else I
+        if Iarg is I and rng.random() < 0.6:
+            # indices stored in the narrowest integer type that holds them
+            # (int8 for n <= 128, uint8 for n <= 256, ...): 2 * i or i + n
+            # must not be formed in that type
+            fits = [dt for dt in (np.int8, np.uint8, np.int16, np.uint16,
+                np.int32, np.uint32) if int(I[-1, 0]) <= np.iinfo(dt).max]
+            if fits:
+                Iarg = I.astype(fits[int(rng.integers(min(2, len(fits))))])
+                ctx.event('narrow-index-dtype:' + Iarg.dtype.name)
         X = teneva.ind_to_poi(Iarg, *args, kind)
         if not (isinstance(X, np.ndarray) and X.shape == I.shape
                 and X.dtype == np.float64 and np.all(np.isfinite(X))):
@@ -918,9 +927,25 @@ def run_flat(case, ctx, teneva):
         lambda: f'grid_flat({arg!r}): shape {getattr(G, "shape", None)}, '
         f'distinct rows: {distinct}; first rows {np.asarray(G)[:6].tolist()} '
         f'expected {exp[:6].tolist()} (first index fastest)', n=n)
+    # history: the caller shuffles / shifts the grid it received in place
+    # (the usual way to draw a training set from it) and asks again, with
+    # the same sizes in the same or another accepted form
+    if ok and G.flags.writeable:
+        rng.shuffle(G)
+        G[:, 0] += 1
+        arg2 = [n, np.array(n), tuple(n)][int(rng.integers(3))]
+        for a2 in (arg, arg2):
+            G2 = teneva.grid_flat(a2)
+            ctx.check('grid-flat', isinstance(G2, np.ndarray)
+                and G2.shape == (N, d) and np.array_equal(G2, exp),
+                lambda: f'grid_flat({a2!r}) after the result of an earlier '
+                'call with the same sizes was edited in place: first rows '
+                f'{np.asarray(G2)[:6].tolist()}, expected {exp[:6].tolist()}',
+                n=n)
+        ctx.event('flat-grid-requested-again-after-edit')
     if len(ctx.samples) < 3:
         ctx.sample({'family': 'flat', 'n': n, 'rows': N,
-            'grid_flat_first_rows': np.asarray(G)[:12].tolist()})
+            'grid_flat_first_rows': exp[:12].tolist()})
     if d >= 2 and len(set(n)) >= 2:
         ctx.nontrivial(['flat', n, f])
 
